@@ -167,7 +167,8 @@ def fill_cases(draw):
     nrows = draw(st.integers(1, 8))
     seed = draw(st.integers(0, 2 ** 32 - 1))
     zero_some = draw(st.booleans())
-    return {"system": system, "order": list(order), "extra": extra, "nrows": nrows, "seed": seed, "zero_some": zero_some}
+    return {"system": system, "order": list(order), "extra": extra, "nrows": nrows, "seed": seed, "zero_some": zero_some,
+            "zero_one_row": draw(st.booleans())}
 
 
 def subset_from_order(system, order, extra):
@@ -188,7 +189,7 @@ def subset_from_order(system, order, extra):
 def fill_oracle(ctx, c):
     system = c["system"]
     rng = np.random.default_rng(c["seed"])
-    w = random_invariant(system, rng, c["nrows"], zero_some=c["zero_some"])
+    w = random_invariant(system, rng, c["nrows"], zero_some=c["zero_some"], zero_one_row=c.get("zero_one_row", False))
     keys = subset_from_order(system, c["order"], c["extra"])
     if not is_sufficient(system, keys):
         raise AssertionError("reference: generated subset is not sufficient")
@@ -210,7 +211,8 @@ def sub_fill(ctx):
         nat_nonzero = not c["zero_some"]
         nt = c["system"] != "triclinic" and len(keys) < 21 and nat_nonzero
         ctx.case({"system": c["system"], "subset": ["%d%d" % k for k in keys], "nrows": c["nrows"], "seed": c["seed"]}, nt,
-                 classes=[c["system"], "extra=%d" % c["extra"], "zeroed-parameters" if c["zero_some"] else "all-parameters-nonzero"])
+                 classes=[c["system"], "extra=%d" % c["extra"], "zeroed-parameters" if c["zero_some"] else "all-parameters-nonzero",
+                          "parameter-zero-at-one-volume" if c.get("zero_one_row") and c["nrows"] > 1 else "no-single-row-zero"])
 
     ctx.run_given(body, fill_cases(), max_examples=ctx.n(9 * 120, 9 * 5000), shrink=True)
 
